@@ -237,11 +237,20 @@ func dateInstants(d Day, loc *time.Location) []time.Time {
 	return out
 }
 
+// zonesOf: the thorough tier adds a zone that switches at 01:00/02:00 UTC and one whose daylight
+// saving shift is 30 minutes (days of 23 h 30 min and 24 h 30 min).
+func zonesOf(tier string) []string {
+	if tier == "thorough" {
+		return append(append([]string{}, zones...), "Europe/London", "Australia/Lord_Howe")
+	}
+	return zones
+}
+
 func partC(tier string) []group {
 	var gs []group
 	days := queryDays(tier)
 	base := len(queryDays("quick"))
-	for _, z := range zones {
+	for _, z := range zonesOf(tier) {
 		for _, df := range dateFormats {
 			es := EnvSpec{TZ: z, DF: df}
 			for di, d := range days {
@@ -707,7 +716,7 @@ func init() {
 		Rule: "exhaustive products, every case on the real ParseQuery (resolver = real SessionAssets) + EvaluateQuery + flows.Contact read from JSON: " +
 			"(A) every property as written (12 attributes, every URN scheme bare and urns.-prefixed, a field of each of the 6 types bare and fields.-prefixed, unknown names) x 10 operator spellings x 36-37 literals x 22 contacts x 7 environments - the real validator decides which conditions are admitted; no panic, and empty-valued =/!= must agree with presence in the contact model; " +
 			"(B) 3 number properties x 20 query literals x 8 contact values x 6 operators: exactly-one-of <,=,>, <=/>= unions, != negation; " +
-			"(C) 6 zones x 3 date formats x 14 query days (ordinary, leap/year ends, 23 h and 25 h days, zones switching at midnight; thorough: every day of 2024-2025) x 4 date properties x up to 8 ways of writing the day x 14 instants around both ends of the day (+-1 ns) x 6 operators: same relations, and each operator must equal the comparison of calendar days in the environment zone; " +
+			"(C) 6 zones (thorough: 8, incl. a 30-minute daylight-saving shift) x 3 date formats x 14 query days (ordinary, leap/year ends, 23 h and 25 h days, zones switching at midnight; thorough: every day of 2024-2025) x 4 date properties x up to 8 ways of writing the day x 14 instants around both ends of the day (+-1 ns) x 6 operators: same relations, and each operator must equal the comparison of calendar days in the environment zone; " +
 			"(D) 2 atom sets x 16 contacts realising every truth assignment x every AND/OR tree of depth <= 2 (root arity 2: 36^2, arity 3: 16^3 children) in 3 spellings, result must be the conjunction/disjunction of the operands' own results; every constructed tree of depth <= 3 incl. single-child and same-operator nesting: Simplify() must keep the meaning, and the parsed (simplified) text must evaluate to it. " +
 			"distinct_nontrivial counts cases whose query the validator admitted (each case is a distinct tuple by construction).",
 		Assumptions: []string{
